@@ -1,6 +1,8 @@
 package printer
 
 import (
+	"bytes"
+	"encoding/json"
 	"fmt"
 	"strconv"
 	"strings"
@@ -70,6 +72,20 @@ func getMapValueString(m map[string]interface{}, key string) string {
 	}
 	return ""
 }
+
+// quoteString renders a GraphQL StringValue. Go's strconv.Quote uses escapes
+// GraphQL does not have (\a, \v, \x7f, \U0001f600); JSON string syntax is a
+// subset of GraphQL's.
+func quoteString(value string) string {
+	var buf bytes.Buffer
+	enc := json.NewEncoder(&buf)
+	enc.SetEscapeHTML(false)
+	if err := enc.Encode(value); err != nil {
+		return strconv.Quote(value)
+	}
+	return strings.TrimSuffix(buf.String(), "\n")
+}
+
 func getDescription(raw interface{}) string {
 	var desc string
 
@@ -375,7 +391,7 @@ var printDocASTReducer = map[string]visitor.VisitFunc{
 	"StringValue": func(p visitor.VisitFuncParams) (string, interface{}) {
 		switch node := p.Node.(type) {
 		case *ast.StringValue:
-			return visitor.ActionUpdate, strconv.Quote(node.Value)
+			return visitor.ActionUpdate, quoteString(node.Value)
 		case map[string]interface{}:
 			return visitor.ActionUpdate, `"` + getMapValueString(node, "Value") + `"`
 		}
